@@ -2187,7 +2187,11 @@ def preprocess_file(
     pp_defines = []
     pp_stack = []
     pp_stack_group = []
-    defs_tmp = pp_defs.copy()
+    # Macro values given as numbers (JSON configuration) are text to the preprocessor
+    defs_tmp = {
+        key: val if isinstance(val, (str, tuple)) else str(val)
+        for key, val in pp_defs.items()
+    }
     def_regexes = {}
     output_file = []
     def_cont_name = None
